@@ -79,14 +79,18 @@ type SetInst struct {
 	PS    *bpmn.ProcessSet
 	Defs  *schema.Definitions
 	procs []string // process ids, longest first (instance → process resolution by node-id prefix)
+	// Sink, when set before anything is started, receives every recorded line at once (raw: member traces
+	// carry "@<instance id>" instead of a label; ResolveLabels turns them into labels). A crash of the
+	// process then loses only what had not been recorded yet.
+	Sink func(line string)
 }
 
 // NewSet parses nothing: defs come from schema.Parse. The recording subscriber is registered before anything
 // is started, has a large buffer and its own goroutine.
-func NewSet(defs *schema.Definitions, opts ...bpmn.Option) (*SetInst, error) {
+func NewSet(defs *schema.Definitions, sink func(string), opts ...bpmn.Option) (*SetInst, error) {
 	ctx, cancel := context.WithCancel(context.Background())
 	in := &Inst{Ctx: ctx, Cancel: cancel, occ: map[string]int{}, flowNo: map[string]int{}, recDone: make(chan struct{})}
-	s := &SetInst{Inst: in, Defs: defs}
+	s := &SetInst{Inst: in, Defs: defs, Sink: sink}
 	for i := range *defs.Processes() {
 		if id, ok := (*defs.Processes())[i].Id(); ok {
 			s.procs = append(s.procs, *id)
@@ -106,8 +110,12 @@ func NewSet(defs *schema.Definitions, opts ...bpmn.Option) (*SetInst, error) {
 		defer close(in.recDone)
 		for t := range in.sub {
 			in.mu.Lock()
-			in.lines = append(in.lines, "obs "+s.canonSet(t))
+			l := "obs " + s.canonSet(t)
+			in.lines = append(in.lines, l)
 			in.ntraces++
+			if s.Sink != nil {
+				s.Sink(l)
+			}
 			in.mu.Unlock()
 		}
 	}()
@@ -140,10 +148,56 @@ func (s *SetInst) canonSet(t tracing.ITrace) string {
 	return "@" + inst + " " + body
 }
 
-// Lines: the history with instance ids replaced by "<process id>#<k>" (k-th instance of that process in
-// order of first appearance). An instance whose process cannot be told (no trace naming a node) is "?#k".
-func (s *SetInst) Lines() []string {
-	raw := s.Inst.Lines()
+// Say records a harness line (an `op …` or an `obs …` of the harness itself) and hands it to the sink at once.
+func (s *SetInst) Say(format string, a ...any) {
+	l := fmt.Sprintf(format, a...)
+	s.Inst.mu.Lock()
+	s.Inst.lines = append(s.Inst.lines, l)
+	if s.Sink != nil {
+		s.Sink(l)
+	}
+	s.Inst.mu.Unlock()
+}
+
+// Answer answers a pending task request (recorded through Say, so that the line is out before the engine reacts).
+func (s *SetInst) Answer(q *Req, results map[string]int) bool {
+	res := map[string]any{}
+	keys := make([]string, 0, len(results))
+	for k := range results {
+		keys = append(keys, k)
+	}
+	sort.Strings(keys)
+	kv := make([]string, 0, len(keys))
+	for _, k := range keys {
+		res[k] = results[k]
+		kv = append(kv, fmt.Sprintf("%s=%d", k, results[k]))
+	}
+	s.Say("op answer %s %d ok %s", q.Node, q.Occ, orDash(strings.Join(kv, ",")))
+	q.Done = true
+	ok := DoWithDeadline(q.Trace, 3*time.Second, bpmn.DoWithResults(res))
+	if !ok {
+		s.Say("obs ret do %s %d blocked", q.Node, q.Occ)
+	}
+	return ok
+}
+
+// Lines: the history with instance ids replaced by labels (see ResolveLabels).
+func (s *SetInst) Lines() []string { return ResolveLabels(s.Inst.Lines(), s.procs) }
+
+// ResolveLabels replaces "@<instance id>" by "<process id>#<k>" (k-th instance of that process in order of
+// first appearance). An instance whose process cannot be told (no trace naming one of its nodes) is "?#k".
+// procs: the process ids of the definitions.
+func ResolveLabels(raw []string, procs []string) []string {
+	procs = append([]string(nil), procs...)
+	sort.Slice(procs, func(i, j int) bool { return len(procs[i]) > len(procs[j]) })
+	procOfToken := func(tok string) string {
+		for _, p := range procs {
+			if tok == p || strings.HasPrefix(tok, p+"_") {
+				return p
+			}
+		}
+		return ""
+	}
 	procOf := map[string]string{}
 	var order []string
 	for _, l := range raw {
@@ -160,7 +214,7 @@ func (s *SetInst) Lines() []string {
 			continue
 		}
 		for _, tok := range w[3:] {
-			if p := s.procOfToken(tok); p != "" {
+			if p := procOfToken(tok); p != "" {
 				procOf[id] = p
 				break
 			}
@@ -186,15 +240,6 @@ func (s *SetInst) Lines() []string {
 		out = append(out, l)
 	}
 	return out
-}
-
-func (s *SetInst) procOfToken(tok string) string {
-	for _, p := range s.procs {
-		if tok == p || strings.HasPrefix(tok, p+"_") {
-			return p
-		}
-	}
-	return ""
 }
 
 // Wait calls ProcessSet.WaitUntilComplete under a deadline.
